@@ -18,12 +18,13 @@ from nucs.solvers.bound_consistency_algorithm import bound_consistency_algorithm
 from nucs.solvers.shaving_consistency_algorithm import shaving_consistency_algorithm
 
 X = STATS_MAX
-SLOTS = 12
+SLOTS = 13
 (S_PASSES, S_GROW, S_EMPTY, S_REEXEC, S_NOTFIX, S_KNOWN_AFFINE, S_TOP, S_REFAIL, S_SH_PASSES, S_SH_GROW, S_SH_EMPTY,
- S_SH_TOP) = range(SLOTS)
+ S_SH_TOP, S_AFFINE_NOTQ) = range(SLOTS)
 NAMES = ["bc_passes_monitored", "domain_grew", "empty_domain_after_consistent_pass", "reexecutions",
          "not_a_fixpoint", "not_a_fixpoint_affine_eq_still_queued", "stack_pointer_changed", "reexecution_fails",
-         "shaving_calls_monitored", "shaving_domain_grew", "shaving_empty_domain", "shaving_stack_pointer_changed"]
+         "shaving_calls_monitored", "shaving_domain_grew", "shaving_empty_domain", "shaving_stack_pointer_changed",
+         "not_a_fixpoint_affine_eq_not_queued"]
 _AFFINE_EQ = ALG_AFFINE_EQ
 _NO_SUB_CYCLE = ALG_NO_SUB_CYCLE
 
@@ -60,6 +61,8 @@ def _after_pass(statistics, algorithms, var_bounds, param_bounds, props_dom_indi
                     statistics[X + S_KNOWN_AFFINE] += 1
             elif st == PROP_INCONSISTENCY:
                 statistics[X + S_REFAIL] += 1
+            elif algorithms[prop_idx] == _AFFINE_EQ and not np.array_equal(dom, ref):
+                statistics[X + S_AFFINE_NOTQ] += 1
             elif algorithms[prop_idx] != _NO_SUB_CYCLE and not np.array_equal(dom, ref):
                 statistics[X + S_NOTFIX] += 1
 
